@@ -14,7 +14,10 @@ from capi import Lib, Buf, Prefs
 from vlib import Oracle, build_lib, BUILD, md5
 
 THEOREMS = ["C20_roundtrip", "C20_reads_deliver_content", "C20_reads_succeed", "C20_reads_then_zero",
-            "C20_old_readOpen_refuted", "C20_fixed_readOpen_examples"]
+            "C20_old_readOpen_refuted", "C20_fixed_readOpen_examples",
+            "C20_dec_contract_refuted", "C20_dec_contract_open_weaker", "C20_dec_contract_open_holds",
+            "C20_roundtrip_open", "C20_roundtrip_dec_discharged", "C20_read_session_framed",
+            "C20_comp_contract_open_holds", "C20_comp_writes_bytes_holds", "C20_roundtrip_discharged"]
 CORRESPONDENCE = ["File.read_session (specification-derived decompressor) == LZ4F_readOpen/LZ4F_read return values and bytes",
                   "file written by LZ4F_writeOpen/LZ4F_write/LZ4F_writeClose == exactly one frame of the content by Spec.FrameSpec.frame_decode"]
 ORACLES = ["block", "lzfile"]
@@ -25,9 +28,12 @@ RULE = ("contents of every length 0..40, multiples of the block size +-1 (64 KB;
         "shorter than 11 bytes (LZ4F_readOpen must refuse).  non-trivial = a session with at least one byte of content or a "
         "file shorter than the maximum header size; distinct = distinct (content hash, prefs, write sizes, read sizes)")
 TRUSTED = ["hand-written model Model/File.v of lz4file.c, tied by the read-result comparison",
-           "contracts of the LZ4F streaming compressor/decompressor (premises comp_contract, dec_contract of C20_roundtrip): "
-           "properties C03/C07/C08/C10",
-           "Model/FileInst.v: idealised decompressor used to run the model (not proved to satisfy dec_contract)"]
+           "C20_roundtrip_discharged assumes nothing of the LZ4F layer: the compressor side is Model/FrameC.v (bytes, C03/C07) plus the capacity "
+           "tests written with Model/FrameCSizes.v's LZ4F_compressBound_internal (C10), the decompressor side is Model/FrameD.v (C08); what is "
+           "assumed is the contract of the BLOCK compressors (blk_contract: C01/C06/C11/C12; and that they write bytes) and the ties of those "
+           "three models to lz4frame.c (correspondence runs of C03, C08, C10).  The original dec_contract is over-general in the getFrameInfo "
+           "clause (C20_dec_contract_refuted); contents below 2^64 bytes, dictID below 2^32",
+           "Model/FileInst.v: idealised decompressor still used to RUN the model in this check (fast); it is not the instance of the theorem"]
 ASSUMPTIONS = ["the FILE behaves ideally (no I/O error, fread returns min(n, remaining))", "malloc succeeds",
                "a declared content size equals the real one"]
 
